@@ -21,12 +21,14 @@ def sizes(J, tier, L):
     if L > 20:
         hi = 8 if tier == 'quick' else 16
     g = list(range(s, hi + 1, s))
+    if tier == 'thorough' and J == 1:
+        g = [x for x in g if x <= 12 or x % 4 == 0]
     out = [(h, w) for h in g for w in g]
     if tier == 'thorough' and L <= 20:
         out += [(h, s) for h in range(hi + s, 49, s)] + [(s, h) for h in range(hi + s, 49, s)]
-    if tier == 'quick' and len(out) > 9:
+    if len(out) > 9:
         # full grid for short filters only; others: diagonal + extremes of the grid (H != W kept)
-        if L > 8:
+        if L > (8 if tier == 'quick' else 12):
             out = sorted(set([(g[0], g[0]), (g[0], g[-1]), (g[-1], g[0]), (g[-1], g[-1]), (g[1], g[2 % len(g)]), (g[2 % len(g)], g[1])]))
     return out
 
@@ -48,7 +50,7 @@ def plan(tier):
 
 
 def required_regimes(tier):
-    return {'mode:default', 'mode:periodic', 'J:1', 'J:2', 'J:3', 'size:h!=w', 'filter_longer_than_image', 'shift_commutation'}
+    return {'mode:default', 'mode:periodic', 'J:1', 'J:2', 'J:3', 'size:h!=w', 'filter_longer_than_image', 'shift_commutation', 'channels:2'}
 
 
 def run(item):
@@ -103,6 +105,23 @@ def run(item):
     if d is not None:
         res.violation('swt_vs_pywt', cfg, d, tags)
     res.op(Ai)
+    # two channels at once (channel 1 carries the impulses in reverse order): every level of every channel equals the reference
+    if P <= 256:
+        X2 = np.concatenate([X, X[::-1]], axis=1)
+        try:
+            o2 = m(torch.as_tensor(X2))
+            res['impl_calls'] += 1
+            res['evals'] += P
+            res.regime('channels:2')
+            for j in range(J):
+                g = o2[j].numpy()
+                e0, e1 = ref[j][:, 0], ref[j][::-1, 0]
+                if g.shape != (P, 2, 4, h, ww) or common.maxabs(g[:, 0] - e0) > common.TOL * max(1.0, common.maxabs(e0)) or \
+                        common.maxabs(g[:, 1] - e1) > common.TOL * max(1.0, common.maxabs(e1)):
+                    res.violation('swt_vs_pywt', dict(cfg, channels=2), {'kind': 'value_or_shape', 'level': j + 1, 'shape': list(g.shape)}, tags)
+                    break
+        except Exception as e:
+            res.violation('swt_vs_pywt', dict(cfg, channels=2), {'kind': 'raise', 'exc': repr(e)[:200]}, tags)
     # shift equivariance on the extracted operator: A[(j,b,y,x),(y0,x0)] == A[(j,b,y+dy,x+dx),(y0+dy,x0+dx)] for all shifts
     A6 = Ai.reshape(J, 4, h, ww, h, ww)
     worst = 0.0
